@@ -306,8 +306,8 @@ def nontrivial(prop, mm, ob):
         return len(src - {'entry'}) >= 2
     if prop == 'C11':
         kinds = [mm.kind_of(it) for it in mm.items]
-        back = any(mm.kind_of(it) in ('goto', 'if') and mm.branch_target(it) <= it.off for it in mm.items) or \
-            any(t <= it.off for it in mm.items if mm.kind_of(it) == 'switch' for t in (mm.switch_targets(it) or ()))
+        back = any(mm.kind_of(it) in ('goto', 'if') and 0 <= mm.branch_target(it) <= it.off for it in mm.items) or \
+            any(0 <= t <= it.off for it in mm.items if mm.kind_of(it) == 'switch' for t in (mm.switch_targets(it) or ()))
         return 'if' in kinds and ('switch' in kinds or back)
     if prop == 'C12':
         if not mm.tries:
